@@ -284,9 +284,17 @@ def run(ctx):
         data = rng.normal(size=(nd, n)) * rng.uniform(0.5, 2.0, (nd, 1)) + rng.uniform(-1, 1, (nd, 1))
         if ties:
             data = np.round(data, 1)
+            n = max(n, 257)
+            data = np.round(rng.normal(size=(nd, n)), 1)
         layers = int(rng.integers(1, 3))
         bins = [[int(rng.integers(1, 4)) for _ in range(nd)] for _ in range(layers)]
+        if ties:
+            # duplicate-rich data: keep far fewer bins than distinct values (an empty intermediate bin cannot be split further)
+            bins = [[int(rng.integers(1, 3)) for _ in range(nd)]]
         nbins = int(np.prod([np.prod(b) for b in bins]))
+        if n < 4 * nbins:  # more bins than events is outside the domain (an empty bin cannot be split)
+            n = 4 * nbins + int(rng.integers(0, 7))
+            data = rng.normal(size=(nd, n)) if not ties else np.round(rng.normal(size=(nd, n)), 1)
         desc = {"n_dim": nd, "n": n, "bins": bins, "ties": ties}
         try:
             ab = AdaptiveBound(data, bins)
